@@ -343,6 +343,34 @@ func runCase(run *hx.Run, or *outcomeReader, model *hx.Model, name string, scrip
 					fail("lookup returned a location in a released block", fmt.Sprintf("%q: %s", line, showOpt(l)))
 				}
 			}
+		case "getn":
+			// getn <k1> <k2>: a lookup of k1 that is overtaken by a lookup of k2 between its read of a record and its
+			// use of what it read (lookups run under the read side of the store's lock, i.e. concurrently). The model
+			// sees a plain "get k1".
+			declare(n(1))
+			declare(n(2))
+			alone, _ := s.get(n(1))
+			other, _ := s.get(n(2))
+			if s.dev != nil {
+				nested := false
+				s.dev.OnReadDone = func(int64, int) {
+					if nested {
+						return
+					}
+					nested = true
+					if got, _ := s.get(n(2)); got != other {
+						fail("a lookup running inside another lookup returned something else than on its own", fmt.Sprintf("%q: key %d: %s, alone %s", line, n(2), got, other))
+					}
+					nested = false
+				}
+			}
+			got := emit(fmt.Sprintf("get %d", n(1)))
+			if s.dev != nil {
+				s.dev.OnReadDone = nil
+			}
+			if got != alone {
+				fail("a lookup overtaken by another lookup returned something else than on its own", fmt.Sprintf("%q: key %d: %s, alone %s", line, n(1), got, alone))
+			}
 		case "push":
 			if s.blocks < 8 {
 				emit(line)
@@ -433,8 +461,10 @@ func genScript(r *hx.Rand, nops int) []string {
 			script = append(script, fmt.Sprintf("put %d %d %d %d", r.Intn(nkeys), b, offs[r.Intn(len(offs))], size()))
 		case x < 59 && blocks > 0 && backend == "dev":
 			script = append(script, fmt.Sprintf("putf %d %d %d %d", r.Intn(nkeys), blocks-1, offs[r.Intn(len(offs))], size()))
-		case x < 80:
+		case x < 76:
 			script = append(script, fmt.Sprintf("get %d", r.Intn(nkeys)))
+		case x < 80:
+			script = append(script, fmt.Sprintf("getn %d %d", r.Intn(nkeys), r.Intn(nkeys)))
 		case x < 90:
 			if blocks < 8 {
 				script = append(script, "push")
